@@ -44,6 +44,11 @@ def _grid(tier):
                     if tier == 'quick' and variant == 'hocur' and (len(mix) > 1 or d > 1):
                         continue
                     out.append({'variant': variant, 'd': d, 'm': m, 'mix': mix, 'pairs': pairs, 'perm': perm})
+    # consecutive pairs that share their x index set (several lag times on one window), and three pairs
+    for variant in ('hosvd', 'hocur'):
+        out.append({'variant': variant, 'd': 1, 'm': 3, 'mix': [['const', 'id']], 'pairs': [[[0, 1], [1, 2]], [[0, 1], [2, 0]]], 'perm': 0})
+        out.append({'variant': variant, 'd': 1, 'm': 4, 'mix': [['const', 'id'], ['id', 'mono2']],
+                    'pairs': [[[0, 1, 2], [1, 2, 3]], [[0, 1, 2], [2, 3, 0]], [[0, 1, 2], [3, 0, 1]]], 'perm': 1})
     # optional outputs requested (eigenfunction evaluations): eigenvalues and eigentensors must not depend on it
     for (d, m, mix) in ((1, 3, [['const', 'id']]), (2, 4, [['const', 'id'], ['id', 'cos']])):
         for perm in (0, 1, 2):
